@@ -59,6 +59,17 @@ def params_of(fn):
     return [x.arg for x in a.posonlyargs + a.args + a.kwonlyargs]
 
 
+def body_hash(fn):
+    """digest of a function's statements (docstring and positions excluded)"""
+    import hashlib
+    body = _docless(list(fn.body))
+    return hashlib.sha1("\n".join(ast.dump(st) for st in body).encode()).hexdigest()[:16]
+
+
+def ref_params(entry):
+    return entry["params"] if isinstance(entry, dict) else entry
+
+
 def dump_reference(repo_root):
     from .core import PKG
     ref = {}
@@ -72,7 +83,7 @@ def dump_reference(repo_root):
                 if rel.endswith(".__init__"):
                     rel = rel[: -len(".__init__")]
                 tree = ast.parse(open(p, encoding="utf-8").read())
-                ref[rel] = {q: params_of(n) for q, (n, _, _) in function_table(tree).items()}
+                ref[rel] = {q: {"params": params_of(n), "hash": body_hash(n)} for q, (n, _, _) in function_table(tree).items()}
     os.makedirs(os.path.dirname(REF_PATH), exist_ok=True)
     with open(REF_PATH, "w") as f:
         json.dump(ref, f, indent=1, sort_keys=True)
@@ -120,7 +131,7 @@ def detect_renames(modules, ref):
         new = [q for q in table if q not in known]
         taken = set()
         for q in missing:
-            want = known[q]
+            want = ref_params(known[q])
             scope = q.rsplit(".", 1)[0] if "." in q else ""
             base = q.rsplit(".", 1)[-1]
 
@@ -866,6 +877,100 @@ def _module_rebinds(tree, name, node):
 
 
 # ---------------------------------------------------------------------------
+# canonical forms inside functions whose statements differ from the reference (pinned functions are left as written)
+
+
+def _single_target_assign(st):
+    if isinstance(st, ast.Assign) and len(st.targets) == 1:
+        return st.targets[0], st.value
+    return None, None
+
+
+def _subst_locals(stmts, final):
+    """fold leading single-use assignments  a = e  of a loop body into its final statement; None if not possible"""
+    env = {}
+    for st in stmts:
+        t, v = _single_target_assign(st)
+        if not isinstance(t, ast.Name):
+            return None
+        env[t.id] = _Subst(dict(env), {}).visit(_copy(v))
+    for name in env:
+        uses = sum(1 for n in ast.walk(final) if isinstance(n, ast.Name) and n.id == name and isinstance(n.ctx, ast.Load))
+        uses += sum(1 for k, v in env.items() if k != name for n in ast.walk(v) if isinstance(n, ast.Name) and n.id == name)
+        if uses > 1 and _contains(env[name], (ast.Call,)):
+            return None
+    return _Subst(env, {}).visit(_copy(final))
+
+
+def _as_ifexp(st):
+    """if c: T = a else: T = b  ->  T = a if c else b   (same simple target / same subscript store / same append)"""
+    if not (isinstance(st, ast.If) and len(st.body) == 1 and len(st.orelse) == 1):
+        return None
+    a, b = st.body[0], st.orelse[0]
+    ta, va = _single_target_assign(a)
+    tb, vb = _single_target_assign(b)
+    if ta is not None and tb is not None and norm(ta) == norm(tb):
+        return ast.Assign(targets=[ta], value=ast.IfExp(test=st.test, body=va, orelse=vb), lineno=0)
+    return None
+
+
+def canonical_loops(fn, notes, where):
+    """X = {} / [] followed by a loop that only fills X  ->  comprehension;  if/else assigning one target -> conditional expression"""
+    changed = False
+
+    def rewrite(stmts):
+        nonlocal changed
+        out = []
+        i = 0
+        while i < len(stmts):
+            st = stmts[i]
+            for field in ("body", "orelse", "finalbody"):
+                blk = getattr(st, field, None)
+                if isinstance(blk, list) and blk and isinstance(blk[0], ast.stmt) and not isinstance(st, (ast.FunctionDef, ast.ClassDef, ast.AsyncFunctionDef)):
+                    setattr(st, field, rewrite(blk))
+            if isinstance(st, ast.Try):
+                for h in st.handlers:
+                    h.body = rewrite(h.body)
+            ie = _as_ifexp(st)
+            if ie is not None:
+                st = ie
+                changed = True
+            t, v = _single_target_assign(st)
+            nxt = stmts[i + 1] if i + 1 < len(stmts) else None
+            if isinstance(t, ast.Name) and isinstance(v, (ast.Dict, ast.List)) and isinstance(nxt, ast.For) and not nxt.orelse and nxt.body:
+                body = list(nxt.body)
+                last = _as_ifexp(body[-1]) or body[-1]
+                lead = body[:-1]
+                comp = None
+                tnames = {n.id for n in ast.walk(nxt.target) if isinstance(n, ast.Name)}
+                uses_x = lambda e: any(isinstance(n, ast.Name) and n.id == t.id for n in ast.walk(e))
+                if isinstance(v, ast.Dict):
+                    lt, lv = _single_target_assign(last)
+                    if isinstance(lt, ast.Subscript) and isinstance(lt.value, ast.Name) and lt.value.id == t.id:
+                        pair = _subst_locals(lead, ast.Tuple(elts=[lt.slice, lv], ctx=ast.Load()))
+                        if pair is not None and not uses_x(pair) and not uses_x(nxt.iter):
+                            dc = ast.DictComp(key=pair.elts[0], value=pair.elts[1], generators=[ast.comprehension(target=nxt.target, iter=nxt.iter, ifs=[], is_async=0)])
+                            comp = dc if not v.keys else ast.BinOp(left=v, op=ast.BitOr(), right=dc)
+                else:
+                    if not v.elts and isinstance(last, ast.Expr) and isinstance(last.value, ast.Call) and isinstance(last.value.func, ast.Attribute) and last.value.func.attr == "append" \
+                            and isinstance(last.value.func.value, ast.Name) and last.value.func.value.id == t.id and len(last.value.args) == 1:
+                        elt = _subst_locals(lead, last.value.args[0])
+                        if elt is not None and not uses_x(elt) and not uses_x(nxt.iter):
+                            comp = ast.ListComp(elt=elt, generators=[ast.comprehension(target=nxt.target, iter=nxt.iter, ifs=[], is_async=0)])
+                if comp is not None:
+                    out.append(ast.Assign(targets=[t], value=comp, lineno=0))
+                    changed = True
+                    notes.append(f"{where}: the loop filling `{t.id}` is read as a comprehension")
+                    i += 2
+                    continue
+            out.append(st)
+            i += 1
+        return out
+
+    fn.body = rewrite(fn.body)
+    return changed
+
+
 def prenormalise(trees):
     """trees: {module name: ast.Module}; rewrites in place -> (set of changed module names, notes)"""
     ref = load_reference()
@@ -887,6 +992,14 @@ def prenormalise(trees):
     inl = Inliner(trees, ref, notes)
     inl.run()
     changed |= inl.changed
+    for mname, tree in trees.items():
+        known = ref.get(mname, {})
+        for q, (fn, parent, cls) in function_table(tree).items():
+            entry = known.get(q)
+            if isinstance(entry, dict) and entry.get("hash") == body_hash(fn):
+                continue  # as in the reference: left as written
+            if canonical_loops(fn, notes, f"{mname}:{q}"):
+                changed.add(mname)
     return changed, notes
 
 
